@@ -4,6 +4,7 @@ package verifharness_test
 
 import (
 	"fmt"
+	"sort"
 	"testing"
 
 	"github.com/jub0bs/cors"
@@ -102,6 +103,47 @@ func c08Run(r *Run, l *Local, cs c08Case) {
 	if cs.Prior == nil && cfgAfter != nil {
 		fail("config-changed", "passthrough middleware reports a configuration after a rejected Reconfigure")
 	}
+	// the rejected call left nothing behind that a LATER Reconfigure could pick up (lesson of seeded change C08-h:
+	// validation results memoised per middleware): relatives of the rejected configuration - switches flipped,
+	// integer violations repaired, invalid atoms dropped - are given to the same middleware; the invalid ones must be
+	// rejected with the state unchanged, the valid ones must give what a fresh middleware gives.
+	for vi, v := range c08Variants(cs.Invalid) {
+		vc := v.Config()
+		nviol := len(v.violations())
+		err := m.Reconfigure(&vc)
+		if nviol > 0 {
+			if err == nil {
+				fail("invalid-accepted-after-rejected", fmt.Sprintf("after the rejected Reconfigure, the invalid relative #%d %s (violations %v) was accepted", vi, cfgString(&vc), keysOf(v.violations())))
+				return
+			}
+			if d := firstDiff(before, runSuiteAsIs(m, suite)); d >= 0 {
+				fail("response-changed", fmt.Sprintf("after the rejected Reconfigure with relative #%d %s the answer to %s changed", vi, cfgString(&vc), reqString(suite[d])))
+				return
+			}
+			continue
+		}
+		if err != nil {
+			continue // C05's business (completeness of acceptance)
+		}
+		fresh, ferr := cors.NewMiddleware(v.Config())
+		if ferr != nil {
+			continue
+		}
+		fresh.SetDebug(cs.Prior != nil && cs.Debug)
+		vsuite := append(append([]Req{}, suite...), suiteFor(v.Sem())...)
+		if d := firstDiff(runSuiteAsIs(fresh, vsuite), runSuiteAsIs(m, vsuite)); d >= 0 {
+			fail("rejected-call-left-something-behind", fmt.Sprintf("after the rejected Reconfigure and the valid relative #%d %s the answer to %s differs from a fresh middleware's", vi, cfgString(&vc), reqString(vsuite[d])))
+			return
+		}
+		// back to the prior state
+		if err := m.Reconfigure(cfgBefore); err != nil {
+			return
+		}
+		if d := firstDiff(before, runSuiteAsIs(m, suite)); d >= 0 {
+			fail("response-changed-later", fmt.Sprintf("after returning to the prior configuration the answer to %s changed", reqString(suite[d])))
+			return
+		}
+	}
 	// nothing is left behind: a later successful Reconfigure gives exactly what a fresh middleware gives
 	if cs.Prior == nil {
 		later := secureLaterCfg
@@ -123,11 +165,80 @@ func c08Run(r *Run, l *Local, cs c08Case) {
 	}
 }
 
+func cloneCfgSpec(c *CfgSpec) *CfgSpec {
+	d := *c
+	d.Origins = append([]OAtom(nil), c.Origins...)
+	d.Methods = append([]MAtom(nil), c.Methods...)
+	d.ReqHdrs = append([]HAtom(nil), c.ReqHdrs...)
+	d.RespHdrs = append([]HAtom(nil), c.RespHdrs...)
+	return &d
+}
+
+// c08Variants: relatives of an invalid configuration (deterministic): the same lists with the tolerate switches
+// cleared / set, with out-of-range integers repaired, with invalid atoms dropped, and combinations.
+func c08Variants(inv *CfgSpec) []*CfgSpec {
+	repaired := cloneCfgSpec(inv)
+	if repaired.MaxAge < -1 || repaired.MaxAge > 86400 {
+		repaired.MaxAge = 30
+	}
+	if repaired.Status != 0 && (repaired.Status < 200 || repaired.Status > 299) {
+		repaired.Status = 0
+	}
+	if repaired.PNA == pnaBoth {
+		repaired.PNA = pnaOn
+	}
+	var os []OAtom
+	for _, a := range repaired.Origins {
+		if a.Kind != oInvalid {
+			os = append(os, a)
+		}
+	}
+	repaired.Origins = os
+	var ms []MAtom
+	for _, a := range repaired.Methods {
+		if a.Kind != mInvalid && a.Kind != mForbidden {
+			ms = append(ms, a)
+		}
+	}
+	repaired.Methods = ms
+	var hs []HAtom
+	for _, a := range repaired.ReqHdrs {
+		if a.Kind != hInvalid && a.Kind != hForbidden && a.Kind != hProhibited {
+			hs = append(hs, a)
+		}
+	}
+	repaired.ReqHdrs = hs
+	hs = nil
+	for _, a := range repaired.RespHdrs {
+		if a.Kind != hInvalid && a.Kind != hForbidden && a.Kind != hProhibited {
+			hs = append(hs, a)
+		}
+	}
+	repaired.RespHdrs = hs
+	var out []*CfgSpec
+	for _, base := range []*CfgSpec{repaired, inv} {
+		for sw := 0; sw < 4; sw++ {
+			v := cloneCfgSpec(base)
+			v.TolPSL = sw&1 != 0
+			v.TolInsecure = sw&2 != 0
+			if base == inv && v.TolPSL == inv.TolPSL && v.TolInsecure == inv.TolInsecure {
+				continue
+			}
+			out = append(out, v)
+		}
+	}
+	// order: tolerant relatives first, strict ones last (what a tolerant call leaves behind must not help a strict one)
+	sort.SliceStable(out, func(i, j int) bool {
+		return b2i(out[i].TolPSL)+b2i(out[i].TolInsecure) > b2i(out[j].TolPSL)+b2i(out[j].TolInsecure)
+	})
+	return out
+}
+
 func TestVerif_C08(t *testing.T) {
 	r := newRun(t, "C08")
 	r.Rule("prior states: passthrough (zero value; Reconfigure(nil) after a configuration in debug mode) and accepted configurations (C02 product slice + C06 generator) reached by NewMiddleware, by Reconfigure on a zero value, or by one or three Reconfigure calls from another configuration, x debug off/on " +
 		"x invalid configurations from the C05 generator with 1..12 injected violation kinds, including ones invalid only in the first validated field (status), only in the last (ResponseHeaders), and ones whose valid fields differ from the current state in every aspect. " +
-		"Observed before and after: answers to the union of both configurations' request suites, Config(), and answers again after a no-op round trip. evaluation = one (state, invalid config) pair; non-trivial = pair with a configured prior state, distinct by hash")
+		"and the prior configuration itself with its tolerate switches cleared. Observed before and after: answers to the union of both configurations' request suites, Config(), answers again after a no-op round trip, and the fate of up to 7 relatives of the rejected configuration (switches flipped, violations repaired) given to the same middleware afterwards: invalid ones rejected without effect, valid ones equal to a fresh middleware. evaluation = one (state, invalid config) pair; non-trivial = pair with a configured prior state, distinct by hash")
 	r.Assume("invalid configurations are invalid by construction (S4)")
 
 	var rc c08Case
@@ -168,6 +279,24 @@ func TestVerif_C08(t *testing.T) {
 				inv = randRichValidCfg(rng)
 				inv.MaxAge = choose(rng, invalidMaxAges)
 				note = "only-max-age"
+			case 3: // the prior configuration itself with the switches that made it acceptable cleared / the ones that make it unacceptable set
+				if prior != nil {
+					inv = cloneCfgSpec(prior)
+					switch rng.IntN(4) {
+					case 0:
+						inv.TolPSL = false
+					case 1:
+						inv.TolInsecure = false
+					case 2:
+						inv.TolPSL, inv.TolInsecure = false, false
+					default:
+						inv.Cred = true
+						inv.TolInsecure = false
+					}
+					note = "prior-with-switches-changed"
+					break
+				}
+				fallthrough
 			default:
 				var names []string
 				inv, names = randInvalidCfg(rng, 1+rng.IntN(12))
